@@ -20,6 +20,7 @@ class Op:
     name: str
     fn: object  # frame -> frame/series/scalar (same code for pandas and dask-expr)
     unordered: bool = False  # result row order unspecified by dask-expr
+    noindex: bool = False  # index labels of the result unspecified (reset_index restarts per partition; merges)
     kind: str = "frame"  # what it returns: frame | series | scalar
     family: str = ""  # operator family for distributions
     dask_only_kwargs: dict = field(default_factory=dict)
@@ -51,8 +52,8 @@ UNARY = [
     Op("fillna0", lambda d: d.fillna(0), family="elemwise"),
     Op("dropna", lambda d: d.dropna(), family="rowselect"),
     Op("dropna_c", lambda d: d.dropna(subset=["c"]), family="rowselect"),
-    Op("reset_index", lambda d: d.reset_index(drop=True), family="index", unordered=False),
-    Op("reset_index_keep", lambda d: d.reset_index(), family="index"),
+    Op("reset_index", lambda d: d.reset_index(drop=True), family="index", noindex=True),
+    Op("reset_index_keep", lambda d: d.reset_index(), family="index", noindex=True),
     Op("set_index_a", lambda d: d.set_index("a"), family="sort"),
     Op("sort_b", lambda d: d.sort_values(["b", "a"]), family="sort"),
     Op("sort_a_desc", lambda d: d.sort_values("a", ascending=False), family="sort"),
@@ -132,6 +133,7 @@ class Program:
     unordered: bool
     families: tuple
     depth: int
+    noindex: bool = False
 
 
 def enumerate_programs(max_depth=2):
@@ -150,9 +152,12 @@ def enumerate_programs(max_depth=2):
 
             name = "/".join([o.name for o in chain] + [term.name])
             unordered = any(o.unordered for o in chain) or term.unordered
-            progs.append(Program(name, fn, unordered, tuple(o.family for o in chain) + (term.family,), len(chain) + 1))
+            noindex = any(o.noindex for o in chain) or term.noindex
+            if noindex and term.name == "index":
+                continue  # asking for index labels that dask-expr leaves unspecified
+            progs.append(Program(name, fn, unordered, tuple(o.family for o in chain) + (term.family,), len(chain) + 1, noindex))
     for name, fn, unordered, fam in _binary_programs():
-        progs.append(Program(name, fn, unordered, (fam,), 2))
+        progs.append(Program(name, fn, unordered, (fam,), 2, fam == "merge"))
     return progs
 
 
